@@ -7,23 +7,30 @@ CONFIG = dict(
     namespaces=["MahfModel.Props.C01"],
     shrink_lists=["ops", "inner"],
     level="proof",
-    rule=("histories of StateRegistry/State statements: 32 registry operation kinds plus State::with_inner_state(body; ok|err) "
+    rule=("histories of StateRegistry/State statements: 32 registry operation kinds, 10 extended kinds (the guard-returning "
+          "accessors borrow, try_borrow, borrow_mut, try_borrow_mut, borrow_value, try_borrow_value, borrow_value_mut, "
+          "try_borrow_value_mut used as lookups - guard taken, value read / replaced through it, guard dropped - and a write "
+          "through the RefMut returned by entry().or_insert / or_default) plus State::with_inner_state(body; ok|err) "
           "with nested bodies (insert, remove, take, contains, "
           "contains_at_top, find, find_mut, get_value, try_get_value, set_value, get_mut, every entry combinator, "
-          "occupied/vacant entry methods, into_child, into_parent, parent()/parent_mut() access, try_get_multiple_mut, "
+          "occupied/vacant entry methods, into_child, into_parent, parent()/parent_mut() access, (try_)get_multiple_mut, "
           "requirements, dump, and set_value / try_get_value issued while a shared / exclusive guard on the same type is "
           "alive): (1) exhaustive - four prefixes building depth 1..3 with shadowing, followed by every "
-          "sequence of L ops over 2 types x 2 values (quick: L=2 over the full 74-statement alphabet and L=3 over a reduced "
-          "33-statement alphabet; thorough: L=3 full, L=4 reduced; the alphabets contain with_inner_state bodies of nesting "
-          "depth <= 2 with ok and err results and the guarded accesses); (2) seeded random histories of length 40..120 over 4 "
-          "types (1000 quick / 50000 thorough) biased to shadow -> remove-underneath -> entry-on-shadowed -> pop. "
+          "sequence of L statements over 2 types x 2 values (quick: L=2 over the full 100-statement alphabet, which contains "
+          "every operation kind, parent access at depth 1 and 2 and with_inner_state bodies of nesting depth <= 3 with ok and "
+          "err results, and L=3 over a reduced 37-statement alphabet; thorough: L=2 full, L=3 over the 76-statement base alphabet "
+          "and over a 45-statement alphabet (reduced + four extended operations per type), L=4 reduced); (2) seeded random histories of length 40..120 over 4 types, occasionally all 8 "
+          "(1000 quick / 50000 thorough) biased to shadow -> remove-underneath -> entry-on-shadowed / accessor-write -> pop, "
+          "with with_inner_state nesting up to 4 and multi-borrow tuples of arity 2..8. "
           "Every history ends with a dump of every scope. A history is non-trivial if it contains a scope push, an "
           "insert and at least one lookup/removal/entry access; distinct = distinct canonical op list."),
     nontrivial=lambda inp: ("(push)" in inp and "(ins " in inp
-                            and re.search(r"\((tryget|get|rem|take|find|set|getmut|ent-|occ-|vac-|parget|multi|gset|gget|inner)", inp) is not None),
+                            and re.search(r"\((tryget|get|rem|take|find|set|getmut|ent-|occ-|vac-|parget|multi|gset|gget|inner|bor|trybor|bval|trybval)", inp) is not None),
     trusted_base=[
         "HashMap<TypeId, _> represented by an association list keyed by a type index; TypeId distinctness of the "
         "harness types K0..K7 and better_any downcasts (the unwraps after a key hit) are not modelled",
+        "Ref::map / RefMut::map(deref) of the *_value accessors is modelled as the identity on the guard (the harness "
+        "types deref to their u64 field)",
         "state values are u64 newtypes modelled as Nat (the generators never overflow)"],
     assumptions=["SplitMix64-seeded generator", "no guard is alive between two operations of a C01 history "
                  "(the harness drops every Ref/RefMut inside the operation; live guards are C02)"],
@@ -31,17 +38,28 @@ CONFIG = dict(
 CONFIG.update(
     level_text=("Lean 4 theorems: the code-shaped registry model (chain of association lists with RefCell flags, find + "
                 "index arithmetic, entry resolution, multi-borrow) refines the abstract stack of partial maps for each of "
-                "the 32 operation kinds (step_refines) and for with_inner_state statements with ok/err bodies (stmt_refines), hence for "
-                "every finite history (history_refines, history_refines_from, history_refines_stmts); guarded_access_refused; "
-                "stated outright: lookup_innermost (find = first holder; get/remove/set/get_mut/occupied-entry methods act on that "
-                "cell), insert_top_reports_top, remove_innermost_reexposes (only that scope changes; the type then resolves as the "
-                "outer scopes say), absent_is_error_not_invented (18 non-inserting operations leave the registry untouched; the 4 "
-                "inserting entry combinators write the top scope), pop_yields_inserted (for every block between push and pop: the "
+                "the 32 operation kinds (step_refines), for the 10 extended kinds - the eight guard-returning accessors used as "
+                "lookups and writes through the RefMut of or_insert / or_default (xstep_refines) - and for with_inner_state "
+                "statements with ok/err bodies (stmt_refines, xstmt_refines), hence for "
+                "every finite history (history_refines, history_refines_from, history_refines_stmts, history_refines_xstmts = "
+                "what the driver replays); guarded_access_refused; "
+                "stated outright: lookup_innermost + lookup_innermost_rest (find = first holder; every reading / removing / "
+                "writing / entry operation kind acts on that cell), guard_accessors_innermost (the eight accessors read / replace "
+                "exactly that cell, no other scope or type changes), insert_top_reports_top, remove_innermost_reexposes (only that "
+                "scope changes; the type then resolves as the outer scopes say), absent_is_error_not_invented (18 non-inserting "
+                "operations leave the registry untouched; the 4 inserting entry combinators write the top scope), "
+                "guard_accessors_absent (NotFound / panic, registry untouched), multi_absent_no_partial_write, "
+                "pop_yields_inserted (for every block between push and pop: the "
                 "pop returns exactly the child's map and the parent chain, unnamed types are untouched, types shadowed throughout "
-                "keep their parent values), nodup_preserved. The model is tied to /repo by running "
+                "keep their parent values), pop_yields_last_insert (a type whose last mention in the block is insert(v) is in the "
+                "popped map with value v), pop_forgets_removed (an entry of the new scope removed by the block is not in the "
+                "popped map and the parents' bindings of that type are untouched), nodup_preserved. The model is tied to /repo by running "
                 "the real State/StateRegistry on exhaustive short and seeded long histories and diffing every return value and "
                 "a final dump against the compiled model (K) and against the abstract stack of maps (O)."),
     level_note=("Trusted: Lean kernel; HashMap/TypeId represented by association lists over type indices; harness + driver "
                 "printing. The theorem is about the model; agreement with the code is checked on the generated histories only. "
-                "Not modelled: TypeId hashing/collisions, better_any downcasts, lifetimes."),
+                "Not modelled: TypeId hashing/collisions, better_any downcasts, lifetimes; guards that outlive an operation "
+                "(C02); entry objects used for more than one call; operations through parent_mut() other than insert; "
+                "with_inner_state bodies that un-balance the scopes themselves are in the model but not generated; "
+                "u64 overflow (wrapping_add in the harness closures) - generated values stay small."),
 )
